@@ -6,6 +6,27 @@ Import ListNotations.
 From Mds Require Import Gen.MapsetFacts Mapset.MapsetModel.
 Local Open Scope Z_scope.
 
+(* ---- the tripwires and return selectors hold of the source as generated on this run: each
+   [by reflexivity] below re-checks one list against Gen/MapsetFacts.v *)
+Lemma guarded_ok : forall (A : Type) (tw : list (Z * Z)) (r : res A), intact tw = true -> guarded tw r = r.
+Proof. intros A tw r H. unfold guarded. rewrite H. reflexivity. Qed.
+Lemma ret1_ok : forall (A : Type) (f : Z -> Z) (a : res A), f 1 = 1 -> ret1 f a = a.
+Proof. intros A f a H. unfold ret1. rewrite H. reflexivity. Qed.
+Lemma ret2_fst : forall (A : Type) (f : Z -> Z -> Z) (a b : res A), f 1 2 = 1 -> ret2 f a b = a.
+Proof. intros A f a b H. unfold ret2. rewrite H. reflexivity. Qed.
+Lemma ret2_snd : forall (A : Type) (f : Z -> Z -> Z) (a b : res A), f 1 2 = 2 -> ret2 f a b = b.
+Proof. intros A f a b H. unfold ret2. rewrite H. reflexivity. Qed.
+
+(* every tripwire of every modelled function at once: the statement skeletons of mapset.go are
+   the ones MapsetModel.v was written for (what is ranged over, deleted from what, looked up,
+   handed to which helper; that Pop, add and AddAll consult no length) *)
+Definition all_tripwires : list (Z * Z) :=
+  has_tw ++ addh_tw ++ new_tw ++ newsize_tw ++ isempty_tw ++ len_tw ++ clear_tw ++ clone_tw ++ add_tw ++ addall_tw ++ remove_tw ++
+  removeall_tw ++ pop_tw ++ intersects_tw ++ hasall_tw ++ hasany_tw ++ issubset_tw ++ equals_tw ++ append_tw ++ slice_tw ++
+  intersect_tw ++ range_tw ++ keys_tw ++ values_tw.
+Lemma skeleton_intact : intact all_tripwires = true /\ (0 < length all_tripwires)%nat.
+Proof. split; [reflexivity | cbn; lia]. Qed.
+
 Section Proofs.
 Variable T : Type.
 Variable eqb : T -> T -> bool.
@@ -58,11 +79,14 @@ Qed.
 Lemma m_get_has : forall m x, m_get m x = true <-> has m x.
 Proof. intros. unfold MapsetModel.m_get, has. apply mem_In. Qed.
 
-Lemma Has_has : forall m x, Has T eqb m x = true <-> has m x.
+Lemma Has_has : forall m x, Has_raw T eqb m x = true <-> has m x.
 Proof. intros. apply m_get_has. Qed.
 
-Lemma Has_false : forall m x, Has T eqb m x = false <-> ~ has m x.
-Proof. intros. rewrite <- Has_has. destruct (Has T eqb m x); split; congruence. Qed.
+Lemma Has_false : forall m x, Has_raw T eqb m x = false <-> ~ has m x.
+Proof. intros. rewrite <- Has_has. destruct (Has_raw T eqb m x); split; congruence. Qed.
+
+Theorem Has_spec : forall m x, exists b, Has T eqb m x = Ok b /\ (b = true <-> has m x).
+Proof. intros m x. unfold Has. rewrite guarded_ok by reflexivity. eexists. split; [reflexivity | apply Has_has]. Qed.
 
 Lemma m_len_nonneg : forall m, 0 <= m_len m.
 Proof. intro. unfold MapsetModel.m_len. lia. Qed.
@@ -77,7 +101,7 @@ Proof. intros m H E. apply m_len_zero in E. congruence. Qed.
 
 Lemma wf_nil : wf None.
 Proof. constructor. Qed.
-Lemma wf_make : wf (m_make T).
+Lemma wf_make : forall p, wf (m_make T p).
 Proof. constructor. Qed.
 
 (* ---- iteration orders: [valid_order] accepts exactly the enumerations of the keys *)
@@ -113,10 +137,10 @@ Proof.
 Qed.
 
 (* ---- built-in map operations *)
-Lemma m_set_spec : forall l x, exists l',
-  m_set T eqb (Some l) x = Ok (Some l') /\ (forall y, In y l' <-> In y l \/ y = x) /\ (NoDup l -> NoDup l').
+Lemma m_set_spec : forall p l x, exists l',
+  m_set T eqb (Some (p, l)) x = Ok (Some (p, l')) /\ (forall y, In y l' <-> In y l \/ y = x) /\ (NoDup l -> NoDup l').
 Proof.
-  intros l x. cbn [m_set]. destruct (mem x l) eqn:E.
+  intros p l x. cbn [m_set]. destruct (mem x l) eqn:E.
   - exists l. split; [reflexivity|]. split; [|auto].
     intro y. split; [auto|]. intros [H|H]; [exact H | subst; apply mem_In; exact E].
   - exists (l ++ [x]). split; [reflexivity|]. split.
@@ -130,7 +154,7 @@ Lemma m_delete_spec : forall m x,
   (forall y, has (m_delete T eqb m x) y <-> has m y /\ y <> x) /\ (wf m -> wf (m_delete T eqb m x)) /\
   (m_delete T eqb m x = None <-> m = None).
 Proof.
-  intros m x. destruct m as [l|]; cbn [m_delete]; unfold has, wf; cbn [MapsetModel.m_keys].
+  intros m x. destruct m as [[p l]|]; cbn [m_delete]; unfold has, wf; cbn [MapsetModel.m_keys].
   - split; [|split].
     + intro y. rewrite filter_In, negb_true_iff, eqb_false. split; intros [H1 H2]; split; auto.
     + apply NoDup_filter.
@@ -139,54 +163,78 @@ Proof.
 Qed.
 
 (* ---- Set.add / New / Add *)
-Lemma add_loop_spec : forall items l, exists l',
-  add_loop T eqb (Some l) items = Ok (Some l') /\ (forall y, In y l' <-> In y l \/ In y items) /\ (NoDup l -> NoDup l').
+Lemma add_loop_spec : forall items p l, exists l',
+  add_loop T eqb (Some (p, l)) items = Ok (Some (p, l')) /\ (forall y, In y l' <-> In y l \/ In y items) /\ (NoDup l -> NoDup l').
 Proof.
-  induction items as [|x r IH]; intro l; cbn [add_loop].
+  induction items as [|x r IH]; intros p l; cbn [add_loop].
   - exists l. split; [reflexivity|]. split; [|auto]. intro y. cbn [In]. tauto.
-  - destruct (m_set_spec l x) as [l1 [E1 [M1 N1]]]. rewrite E1. cbn [bind].
-    destruct (IH l1) as [l2 [E2 [M2 N2]]]. exists l2. split; [exact E2|]. split; [|auto].
+  - destruct (m_set_spec p l x) as [l1 [E1 [M1 N1]]]. rewrite E1. cbn [bind].
+    destruct (IH p l1) as [l2 [E2 [M2 N2]]]. exists l2. split; [exact E2|]. split; [|auto].
     intro y. rewrite M2, M1. cbn [In]. intuition.
 Qed.
 
-Theorem New_spec : forall items, exists l,
-  New T eqb items = Ok (Some l) /\ NoDup l /\ (forall y, In y l <-> In y items).
+(* s.add(items) returns s itself: same address, the items added *)
+Lemma add_helper_spec : forall items p l, exists l',
+  add_helper T eqb (Some (p, l)) items = Ok (Some (p, l')) /\ (forall y, In y l' <-> In y l \/ In y items) /\ (NoDup l -> NoDup l').
 Proof.
-  intro items. unfold New, m_make. destruct (add_loop_spec items []) as [l [E [M N]]].
+  intros items p l. destruct (add_loop_spec items p l) as [l' [E H]]. exists l'. split; [|exact H].
+  unfold add_helper. rewrite E. cbn [bind]. apply ret1_ok. reflexivity.
+Qed.
+
+(* New: a map at the fresh address holding exactly the items *)
+Theorem New_spec : forall fresh items, exists l,
+  New T eqb fresh items = Ok (Some (fresh, l)) /\ NoDup l /\ (forall y, In y l <-> In y items).
+Proof.
+  intros fresh items. unfold New. rewrite guarded_ok by reflexivity. rewrite ret1_ok by reflexivity.
+  change (called new_ncalls_make (m_make T fresh) None) with (Some (fresh, @nil T)).
+  destruct (add_helper_spec items fresh []) as [l [E [M N]]].
   exists l. split; [exact E|]. split; [apply N; constructor|]. intro y. rewrite M. cbn [In]. tauto.
 Qed.
 
-Lemma ptr_nil : forall m : gomap, Z.eqb (m_ptr T m) (nil_ptr) = true <-> m = None.
-Proof. intro m. destruct m; cbn; split; congruence. Qed.
+Theorem NewSize_spec : forall fresh n, NewSize T fresh n = Ok (Some (fresh, [])).
+Proof. intros. unfold NewSize. rewrite guarded_ok by reflexivity. rewrite ret1_ok by reflexivity. reflexivity. Qed.
 
-Theorem Add_spec : forall s items, wf s -> exists l,
-  Add T eqb s items = Ok (Some l) /\ NoDup l /\ (forall y, In y l <-> has s y \/ In y items).
+Lemma ptr_nil : forall m : gomap, Z.eqb (m_ptr T m) (nil_ptr) = true <-> m = None.
+Proof. intro m. destruct m as [[p l]|]; cbn; split; congruence. Qed.
+
+(* the address a pointer-receiver method leaves in *s: the old one, or the fresh one for a nil receiver *)
+Definition addr_or (s : gomap) (fresh : positive) : positive := match s with None => fresh | Some (p, _) => p end.
+
+Theorem Add_spec : forall s fresh items, wf s -> exists l,
+  Add T eqb s fresh items = Ok (Some (addr_or s fresh, l)) /\ NoDup l /\ (forall y, In y l <-> has s y \/ In y items).
 Proof.
-  intros s items Hwf. unfold Add, add_nil, add_ncalls_make, called. cbn [Z.eqb Pos.eqb].
-  destruct s as [l0|]; cbn [m_ptr nil_ptr Z.eqb].
-  - destruct (add_loop_spec items l0) as [l [E [M N]]]. exists l. split; [exact E|]. split; [apply N; exact Hwf|]. exact M.
-  - unfold m_make. destruct (add_loop_spec items []) as [l [E [M N]]]. exists l. split; [exact E|].
+  intros s fresh items Hwf. unfold Add. rewrite guarded_ok by reflexivity. unfold add_nil.
+  destruct s as [[p l0]|]; cbn [m_ptr nil_ptr Z.eqb addr_or bind].
+  - destruct (add_helper_spec items p l0) as [l [E [M N]]]. exists l. split; [exact E|]. split; [apply N; exact Hwf|]. exact M.
+  - rewrite ret1_ok by reflexivity. change (called add_ncalls_make (m_make T fresh) None) with (Some (fresh, @nil T)). cbn [bind].
+    destruct (add_helper_spec items fresh []) as [l [E [M N]]]. exists l. split; [exact E|].
     split; [apply N; constructor|]. intro y. rewrite M. unfold has. cbn [MapsetModel.m_keys In]. tauto.
 Qed.
 
 (* ---- Clone / Clear / Len / IsEmpty *)
-Theorem Clone_spec : forall s, exists l, Clone T s = Some l /\ l = m_keys s.
+(* Clone: never nil, the same keys, at the fresh address *)
+Theorem Clone_spec : forall s fresh, Clone T s fresh = Ok (Some (fresh, m_keys s)).
 Proof.
-  intro s. unfold Clone, clone_nil, clone_ncalls_make, clone_ncalls_mapsclone, called, maps_clone, m_make.
-  destruct s as [l0|]; cbn; eexists; split; reflexivity.
+  intros s fresh. unfold Clone. rewrite guarded_ok by reflexivity. unfold clone_nil.
+  destruct s as [[p l0]|]; cbn [m_ptr nil_ptr Z.eqb].
+  - rewrite ret2_snd by reflexivity. reflexivity.
+  - rewrite ret2_fst by reflexivity. reflexivity.
 Qed.
 
-Theorem Clear_spec : forall s, m_keys (Clear T s) = [] /\ (Clear T s = None <-> s = None).
+(* Clear: returns its receiver (same address, nil stays nil), emptied *)
+Theorem Clear_spec : forall s, exists r, Clear T s = Ok r /\ m_keys r = [] /\ m_ptr T r = m_ptr T s /\ (r = None <-> s = None).
 Proof.
-  intro s. unfold Clear, clear_ncalls_clear, called. destruct s; cbn; split; try reflexivity; split; congruence.
+  intro s. unfold Clear. rewrite guarded_ok by reflexivity. rewrite ret1_ok by reflexivity.
+  eexists. split; [reflexivity|]. destruct s as [[p l]|]; cbn; (split; [reflexivity|]); (split; [reflexivity|]); split; congruence.
 Qed.
 
-Theorem Len_spec : forall s, Len T s = Z.of_nat (length (m_keys s)).
-Proof. reflexivity. Qed.
+Theorem Len_spec : forall s, Len T s = Ok (Z.of_nat (length (m_keys s))).
+Proof. intro s. unfold Len. rewrite guarded_ok by reflexivity. reflexivity. Qed.
 
-Theorem IsEmpty_spec : forall s, IsEmpty T s = true <-> (forall x, ~ has s x).
+Theorem IsEmpty_spec : forall s, exists b, IsEmpty T s = Ok b /\ b = Z.eqb (m_len s) 0 /\ (b = true <-> (forall x, ~ has s x)).
 Proof.
-  intro s. unfold IsEmpty, isempty_ret. rewrite m_len_zero. unfold has. split.
+  intro s. unfold IsEmpty. rewrite guarded_ok by reflexivity. eexists. split; [reflexivity|]. split; [reflexivity|].
+  unfold isempty_ret. rewrite m_len_zero. unfold has. split.
   - intros E x. rewrite E. auto.
   - intro H. destruct (m_keys s) as [|x r]; [reflexivity|]. exfalso. apply (H x). left. reflexivity.
 Qed.
@@ -197,7 +245,7 @@ Lemma intersects_loop_spec : forall hi items,
 Proof.
   intros hi. induction items as [|x r IH]; cbn [intersects_loop].
   - unfold intersects_end_ret. split; [discriminate | intros [x [[] _]]].
-  - unfold intersects_hit, intersects_hit_ret. destruct (Has T eqb hi x) eqn:E.
+  - unfold intersects_hit, intersects_hit_ret. destruct (Has_raw T eqb hi x) eqn:E.
     + split; [|reflexivity]. intros _. exists x. split; [left; reflexivity | apply Has_has; exact E].
     + rewrite IH. apply Has_false in E. split.
       * intros [y [H1 H2]]. exists y. split; [right; exact H1 | exact H2].
@@ -212,7 +260,7 @@ Theorem Intersects_spec : forall s t ord, wf s -> wf t ->
   | _ => False
   end.
 Proof.
-  intros s t ord Hs Ht. unfold Intersects, intersects_operands, m_range.
+  intros s t ord Hs Ht. unfold Intersects. rewrite guarded_ok by reflexivity. unfold intersects_operands, m_range.
   destruct (intersects_swap (m_len s) (m_len t)); cbn [fst].
   - destruct (valid_order T eqb ord t) eqn:V; [|reflexivity].
     destruct (valid_order_sound _ _ Ht V) as [_ [M _]].
@@ -226,16 +274,16 @@ Lemma hasall_loop_spec : forall s ts, hasall_loop T eqb s ts = true <-> forall x
 Proof.
   intros s. induction ts as [|x r IH]; cbn [hasall_loop].
   - unfold hasall_end_ret. split; [intros _ x [] | reflexivity].
-  - unfold hasall_miss, hasall_miss_ret. destruct (Has T eqb s x) eqn:E; cbn [negb].
+  - unfold hasall_miss, hasall_miss_ret. destruct (Has_raw T eqb s x) eqn:E; cbn [negb].
     + rewrite IH. apply Has_has in E. split.
       * intros H y [Hy|Hy]; [subst; exact E | auto].
       * intros H y Hy. apply H. right. exact Hy.
     + apply Has_false in E. split; [discriminate|]. intro H. exfalso. apply E. apply H. left. reflexivity.
 Qed.
 
-Theorem HasAll_spec : forall s ts, HasAll T eqb s ts = true <-> forall x, In x ts -> has s x.
+Theorem HasAll_spec : forall s ts, exists b, HasAll T eqb s ts = Ok b /\ (b = true <-> forall x, In x ts -> has s x).
 Proof.
-  intros s ts. unfold HasAll, hasall_empty, hasall_empty_ret.
+  intros s ts. unfold HasAll. rewrite guarded_ok by reflexivity. eexists. split; [reflexivity|]. unfold hasall_empty, hasall_empty_ret.
   destruct (Z.eqb (m_len s) 0) eqn:E.
   - apply m_len_zero in E. unfold has. rewrite E. rewrite Z.eqb_eq. destruct ts as [|x r]; cbn [length].
     + split; [intros _ x [] | reflexivity].
@@ -247,16 +295,16 @@ Lemma hasany_loop_spec : forall s ts, hasany_loop T eqb s ts = true <-> exists x
 Proof.
   intros s. induction ts as [|x r IH]; cbn [hasany_loop].
   - unfold hasany_end_ret. split; [discriminate | intros [x [[] _]]].
-  - unfold hasany_hit, hasany_hit_ret. destruct (Has T eqb s x) eqn:E.
+  - unfold hasany_hit, hasany_hit_ret. destruct (Has_raw T eqb s x) eqn:E.
     + split; [|reflexivity]. intros _. exists x. split; [left; reflexivity | apply Has_has; exact E].
     + rewrite IH. apply Has_false in E. split.
       * intros [y [H1 H2]]. exists y. split; [right; exact H1 | exact H2].
       * intros [y [[H1|H1] H2]]; [subst; contradiction | exists y; auto].
 Qed.
 
-Theorem HasAny_spec : forall s ts, HasAny T eqb s ts = true <-> exists x, In x ts /\ has s x.
+Theorem HasAny_spec : forall s ts, exists b, HasAny T eqb s ts = Ok b /\ (b = true <-> exists x, In x ts /\ has s x).
 Proof.
-  intros s ts. unfold HasAny, hasany_empty, hasany_empty_ret.
+  intros s ts. unfold HasAny. rewrite guarded_ok by reflexivity. eexists. split; [reflexivity|]. unfold hasany_empty, hasany_empty_ret.
   destruct (Z.eqb (m_len s) 0) eqn:E.
   - apply m_len_zero in E. unfold has. rewrite E. split; [discriminate | intros [x [_ []]]].
   - apply hasany_loop_spec.
@@ -266,7 +314,7 @@ Lemma issubset_loop_spec : forall t items, issubset_loop T eqb t items = true <-
 Proof.
   intros t. induction items as [|x r IH]; cbn [issubset_loop].
   - unfold issubset_end_ret. split; [intros _ x [] | reflexivity].
-  - unfold issubset_miss, issubset_miss_ret. destruct (Has T eqb t x) eqn:E; cbn [negb].
+  - unfold issubset_miss, issubset_miss_ret. destruct (Has_raw T eqb t x) eqn:E; cbn [negb].
     + rewrite IH. apply Has_has in E. split.
       * intros H y [Hy|Hy]; [subst; exact E | auto].
       * intros H y Hy. apply H. right. exact Hy.
@@ -280,7 +328,7 @@ Theorem IsSubset_spec : forall s t ord, wf s -> wf t ->
   | _ => False
   end.
 Proof.
-  intros s t ord Hs Ht. unfold IsSubset, issubset_empty, issubset_empty_ret, issubset_bigger, issubset_bigger_ret, m_range.
+  intros s t ord Hs Ht. unfold IsSubset. rewrite guarded_ok by reflexivity. unfold issubset_empty, issubset_empty_ret, issubset_bigger, issubset_bigger_ret, m_range.
   destruct (Z.eqb (m_len s) 0) eqn:E.
   - apply m_len_zero in E. unfold has. rewrite E. split; [intros _ x [] | reflexivity].
   - destruct (Z.gtb (m_len s) (m_len t)) eqn:G.
@@ -296,7 +344,7 @@ Lemma equals_loop_spec : forall t items, equals_loop T eqb t items = true <-> fo
 Proof.
   intros t. induction items as [|x r IH]; cbn [equals_loop].
   - unfold equals_end_ret. split; [intros _ x [] | reflexivity].
-  - unfold equals_miss, equals_miss_ret. destruct (Has T eqb t x) eqn:E; cbn [negb].
+  - unfold equals_miss, equals_miss_ret. destruct (Has_raw T eqb t x) eqn:E; cbn [negb].
     + rewrite IH. apply Has_has in E. split.
       * intros H y [Hy|Hy]; [subst; exact E | auto].
       * intros H y Hy. apply H. right. exact Hy.
@@ -310,7 +358,7 @@ Theorem Equals_spec : forall s t ord, wf s -> wf t ->
   | _ => False
   end.
 Proof.
-  intros s t ord Hs Ht. unfold Equals, equals_len_ne, equals_len_ne_ret, m_range.
+  intros s t ord Hs Ht. unfold Equals. rewrite guarded_ok by reflexivity. unfold equals_len_ne, equals_len_ne_ret, m_range.
   destruct (Z.eqb (m_len s) (m_len t)) eqn:E; cbn [negb].
   - destruct (valid_order T eqb ord s) eqn:V; [|reflexivity].
     destruct (valid_order_sound _ _ Hs V) as [_ [M _]].
